@@ -67,6 +67,7 @@ structure Cli where
   toBuf : Bytes := []
   fromBuf : Bytes := []
   blocking : Bool := false
+  fromSize : Nat := 1024         -- c->from->size: MIN_CLIENT_BUF at creation, grows up to MAX_CLIENT_BUF, never shrinks
 
 def comIdx : Com → Nat | .on => 7 | .off => 10 | .cycle => 13 | .reset => 16 | .flash => 23 | .unflash => 25 | .status => 2 | .temp => 19 | .beacon => 21
 def allOf : Nat → Option Nat | 7 => some 9 | 10 => some 12 | 13 => some 15 | 16 => some 18 | 2 => some 3 | 19 => some 20 | 21 => some 22 | _ => none
@@ -317,8 +318,13 @@ def deviceReply (w : W) (arg : Option Bytes) : Option Bytes :=
             bstr " reconnects=" ++ d33 (d.statConnects - 1) ++ bstr " actions=" ++ d33 d.statActions ++ bstr " type=" ++ ((w.specs.lookup nd.1).getD []) ++
             bstr " hosts=" ++ ofChars (rangedString hl) ++ crlf)) (some [])
 
+/-- `CP_LINEMAX` -/
+def lineMax : Nat := 131072
+
 def parseLine (w : W) (c : Cli) (line : Bytes) : W × Cli :=
   let str := stripWs (line.takeWhile (· != 0))
+  -- `if (strlen(str) >= CP_LINEMAX)`: tested first, also with a command in progress; falls through to the prompt
+  if str.length ≥ lineMax then (w, put c (codeLine 203 ++ crlf ++ (if c.quit then [] else prompt))) else
   if c.cmd.isSome then (w, put c (codeLine 208 ++ crlf)) else
   -- `if (cmd == NULL && !c->client_quit)`: no prompt once the client has quit or hit EOF
   let fin (c : Cli) (b : Bytes) : W × Cli := (w, put c (b ++ (if c.quit then [] else prompt)))
@@ -385,6 +391,25 @@ def handleInputF : Nat → W → Cli → W × Cli
 
 def handleInput (w : W) (c : Cli) : W × Cli := handleInputF (c.fromBuf.length + 1) w c
 
+/-- `MAX_CLIENT_BUF` -/
+def cliBufMax : Nat := 1024 * 1024
+
+/-- what `cbuf_write_from_fd(c->from, c->fd, -1, &dropped)` decides before any byte lands (`Pm.Cbuf.readPlan`):
+    `(n, size', dropped)`; the kernel has nothing to hand out on an error or at end of file -/
+def cliReadPlan (c : Cli) (e : FdEnv) : Nat × Nat × Nat :=
+  Pm.Cbuf.readPlan c.fromSize c.fromBuf.length cliBufMax (if e.rk == 1 || e.rk == 2 then 0 else e.data.length)
+
+/-- the capacity half of `_handle_read`, client side: the buffer is grown if it is full, the `dropped` oldest unread bytes
+    give way (only a full buffer at `MAX_CLIENT_BUF` overwrites) … -/
+def clipCli (c : Cli) (e : FdEnv) : Cli :=
+  { c with fromSize := (cliReadPlan c e).2.1, fromBuf := c.fromBuf.drop (cliReadPlan c e).2.2 }
+
+/-- … and the kernel's answer is cut to the `n` bytes asked for -/
+def clipEnv (c : Cli) (e : FdEnv) : FdEnv := { e with data := e.data.take (cliReadPlan c e).1 }
+
+def clipC (c : Cli) (e : Option FdEnv) : Cli := match e with | some e0 => clipCli c e0 | none => c
+def clipE (c : Cli) (e : Option FdEnv) : Option FdEnv := e.map (clipEnv c)
+
 def clientPass (w : W) (c : Cli) (e : Option FdEnv) : W × Option Cli :=
   let interest := (if c.quit then 0 else 1) ||| (if c.toBuf.isEmpty then 0 else 2)
   let rev := match e with | some e => if interest == 0 then 0 else (e.rev &&& interest) ||| (e.rev &&& 28) | none => 0
@@ -392,13 +417,14 @@ def clientPass (w : W) (c : Cli) (e : Option FdEnv) : W × Option Cli :=
   if rev &&& 8 != 0 || rev &&& 16 != 0 then dead w c else
   let (w, c) :=
     if rev &&& 1 != 0 || rev &&& 4 != 0 then
-      match e with
-      | some e =>
+      -- `_handle_read`: first the capacity half (`clipC`, `clipE`), then what is done with the bytes read
+      match clipE c e, clipC c e with
+      | some e, c =>
         if e.rk == 1 then ({ w with sys := w.sys ++ [.read c.fd (-1)] }, { c with quit := true })
         else if e.rk == 2 then ({ w with sys := w.sys ++ [.read c.fd 0] }, { c with quit := true })
         else if e.data.isEmpty then ({ w with sys := w.sys ++ [.read c.fd (-1)] }, { c with quit := true })
         else ({ w with sys := w.sys ++ [.read c.fd e.data.length] }, { c with fromBuf := c.fromBuf ++ e.data })
-      | none => (w, c)
+      | none, c => (w, c)
     else (w, c)
   let (w, c) := if rev &&& 2 != 0 then handleWrite w c else (w, c)
   let (w, c) := handleInput w c
@@ -519,6 +545,7 @@ def mkDevEnv (w : W) (d : Dev) (now con soe : Nat) (envs : List FdEnv) : Env :=
     sockets := (List.range 4).map (2000 + w.nsock + ·), connects := List.replicate 4 con, soerrs := List.replicate 4 soe,
     read := some (match e with | some e => (if e.rk == 1 then none else if e.rk == 2 then some [] else some e.data) | none => some []),
     writeOk := match e with | some e => e.cap ≥ 0 | none => true,
+    wcap := match e with | some e => e.cap.toNat | none => 1 <<< 30,
     pairs := (List.range 4).map (fun i => 3000 + 2 * (w.npair + i)), pids := (List.range 4).map (5000 + w.nfork + ·) }
 
 def countSock (ss : List Pm.Dev2.Sys) : Nat := (ss.filter fun | .socket _ => true | _ => false).length
